@@ -276,56 +276,39 @@ def check(prog, run):
                            "unknown-field rejection is conditional (e.g. skipped when defaults were filled in)")
 
     # ---- I1 Int range
-    r = run.rule("I1", "coerce_int accepts exactly the integers in [-2^31, 2^31 - 1] (every test that compares the converted "
-                       "number with MIN_INT / MAX_INT is folded for 2^31-1, 2^31, -2^31, -2^31-1 and neighbours; the executions "
-                       "that reach it must return for the values inside and raise for those outside)", 1)
+    r = run.rule("I1", "coerce_int accepts exactly the integers in [-2^31, 2^31 - 1]: the function is folded on integer samples "
+                       "(the bounds, their neighbours, 0, +-1, +-(2^32-1), 2^32, 2^40) - its class tests and its range guard are "
+                       "pure expressions over the argument and module constants - and must return the value inside and raise outside", 1)
     ci = prog.get_func(SC, "coerce_int")
     run.looked_at(ci)
     m = prog.module(SC)
-    # the tests that compare the converted number with the bounds, whatever their polarity and position
-    bound_names = ("MIN_INT", "MAX_INT")
-    tests = [n for n in own_nodes(ci.node) if isinstance(n, ast.Compare) and _contains(n, lambda x: isinstance(x, ast.Name) and x.id in bound_names)]
-    shapes.require(bool(tests), "C07.I1: range guard not found in coerce_int")
-    consts = {k: prog.fold(m, ast.Name(id=k, ctx=ast.Load())) for k in bound_names}
-    numvars = {x.id for t in tests for x in ast.walk(t) if isinstance(x, ast.Name) and x.id not in bound_names}
-    shapes.require(len(numvars) == 1, "C07.I1: the range guard of coerce_int compares more than one variable with the bounds")
-    numvar = next(iter(numvars))
-
-    def outcome(v):
-        """kinds of exit reached by executions that evaluate the bounds test with the converted number being v"""
-        hit = []
-
-        def decide(t):
+    # the function folded on integer samples: the class tests on the argument, the range guard (whatever it is written with:
+    # comparisons with MIN_INT / MAX_INT, bit_length(), abs()) and nothing else are evaluated, like constants
+    from .. import fold
+    allowed = {"isinstance": isinstance, "int": int, "float": float, "str": str, "bool": bool, "abs": abs, "len": len, "repr": repr,
+               "True": True, "False": False, "None": None}
+    for k, exprs in m.assigns.items():
+        if k.isupper():
             try:
-                e = ast.parse(t, mode="eval")
-            except SyntaxError:
-                return None
-            names = {x.id for x in ast.walk(e) if isinstance(x, ast.Name)}
-            if names and names <= {numvar, "MIN_INT", "MAX_INT"} and names & set(bound_names) and not _contains(e, lambda x: isinstance(x, ast.Call)):
-                hit.append(t)
-                return bool(eval(compile(e, "<bounds>", "eval"), {"__builtins__": {}}, dict(consts, **{numvar: v})))   # integer comparison
-            return None
-        try:
-            _ev, exits = boolx.walk_under(ci.node, decide)
-        except ValueError as e:
-            raise AnalysisError("C07.I1: %s" % e)
-        kinds = set()
-        for kind, st, env in exits:
-            decided = {t for t, _v in env.get(boolx.TESTS, ())}
-            if any(t in decided for t in hit):
-                kinds.add(kind)
-        return kinds
+                allowed[k] = prog.fold(m, ast.Name(id=k, ctx=ast.Load()))
+            except Exception:
+                pass
+    shapes.require(len(ci.params) == 1, "C07.I1: coerce_int no longer takes one value")
     lo_, hi_ = -2 ** 31, 2 ** 31 - 1
     table = {}
-    for v in (lo_ - 1, lo_, lo_ + 1, 0, hi_ - 1, hi_, hi_ + 1):
-        table[v] = outcome(v)
-    r.instance("bounds test folded: %s" % {k: sorted(v) for k, v in table.items()})
-    for v, kinds in table.items():
-        want = {"return"} if lo_ <= v <= hi_ else {"raise"}
-        if kinds != want:
-            run.report(r, "%s:coerce_int:range" % SC, ci.where(tests[0]),
-                       "for the converted number %d coerce_int %s (expected: %s): the accepted interval is not [-2147483648, 2147483647]"
-                       % (v, "/".join(sorted(kinds)) + "s" if kinds else "never reaches the bounds test", "accepted" if want == {"return"} else "rejected"))
+    for v in (lo_ - 1, lo_, lo_ + 1, -1, 0, 1, hi_ - 1, hi_, hi_ + 1, 2 ** 32 - 1, -(2 ** 32 - 1), 2 ** 32, 2 ** 40):
+        try:
+            outs = fold.fold_function(ci.node, {ci.params[0]: v}, allowed)
+        except fold.FoldError as e:
+            raise AnalysisError("C07.I1: coerce_int cannot be folded on %d: %s" % (v, e))
+        table[v] = sorted({"return %r" % (val,) if kind == "return" else kind for kind, val in outs})
+    r.instance("coerce_int folded on integers: %s" % table)
+    for v, got in table.items():
+        want = ["return %r" % v] if lo_ <= v <= hi_ else ["raise"]
+        if got != want:
+            run.report(r, "%s:coerce_int:range" % SC, ci.where(),
+                       "for the integer %d coerce_int gives %s (expected: %s): the accepted interval is not [-2147483648, 2147483647]"
+                       % (v, " / ".join(got) or "no outcome", want[0]))
             break
 
     # ---- I2 literal kinds
